@@ -29,6 +29,9 @@ def coq_op(h, o):
     def sl(m, t, kk): return 0 if t >= ntab(mods[m]) else kk      # a global has one slot whatever index the call passes
     if k in ("ind", "set", "clr", "leavei"): a[2] = sl(a[0], a[1], a[2])
     if k == "cp": a[2], a[4] = sl(a[0], a[1], a[2]), sl(a[0], a[3], a[4])
+    if k == "fil": return "HSetRef %d %d %d %d" % tuple(a)          # table.fill of one slot
+    if k == "cpc": return "HCopy %d %d %d %d %d" % tuple(a)         # table.copy of one slot
+    if k == "grw": return "HGrow %d %d %d" % tuple(a)               # table.grow by one slot
     if k == "compile": return "HCompile %d" % a[0]
     if k == "inst": return "HInst %d" % a[0]
     if k == "call": return "HCallExport %d %d" % (a[0], a[1])
@@ -109,7 +112,7 @@ def run(tier, seed):
         return ck.finish()
     rc, out = sh([binp, "-gen", "-seed", str(seed), "-n", str(n)], timeout=120)
     hs = [json.loads(l) for l in out.split("\n") if l.startswith("{")]
-    if rc != 0 or len(hs) < n + 3:
+    if rc != 0 or len(hs) < n + 8:
         ck.violation("harness-crash", {"kind": "gen"}, {"rc": rc, "tail": out[-2000:]}, no_input=True)
         return ck.finish()
     # minimized regression histories are replayed first
